@@ -44,3 +44,53 @@ pub fn entry_unwind(acc: Accumulator) {
 pub fn entry_default() -> Accumulator {
     Error::accumulator()
 }
+
+/// bounded history: each op byte selects an accumulator operation; errors come from `errs` in order.
+/// The log records what `handle` returned; the final result is `finish_with(log)`.
+pub fn entry_script(ops: &[u8], errs: Vec<Error>) -> Result<Vec<u8>, Error> {
+    let mut acc = Error::accumulator();
+    let mut src = errs.into_iter();
+    let mut log: Vec<u8> = Vec::new();
+    for op in ops {
+        match *op {
+            0 => {
+                if let Some(e) = src.next() {
+                    acc.push(e);
+                }
+            }
+            1 => {
+                let r: Option<u8> = acc.handle(Ok(7u8));
+                log.push(if r == Some(7) { 1 } else { 0 });
+            }
+            2 => {
+                if let Some(e) = src.next() {
+                    let r: Option<u8> = acc.handle(Err(e));
+                    log.push(if r.is_none() { 2 } else { 0 });
+                }
+            }
+            3 => {
+                let mut two = Vec::new();
+                if let Some(e) = src.next() {
+                    two.push(e);
+                }
+                if let Some(e) = src.next() {
+                    two.push(e);
+                }
+                acc.extend(two);
+            }
+            4 => {
+                acc = acc.checkpoint()?;
+                log.push(4);
+            }
+            5 => {
+                let r: Option<u8> = acc.handle_in(|| match src.next() {
+                    Some(e) => Err(e),
+                    None => Ok(9u8),
+                });
+                log.push(if r.is_none() { 5 } else { 9 });
+            }
+            _ => {}
+        }
+    }
+    acc.finish_with(log)
+}
